@@ -21,7 +21,16 @@ def marginal(phi, xx, keep):
     return out
 
 def grid_for(dadi, rng, pts, it):
-    """grids for the L3 clauses: the default (symmetric) grid one time in three, otherwise grids whose first and last spacings differ"""
+    """grids for the L3 clauses: the default (symmetric) grid one time in three, otherwise grids whose first and last spacings differ;
+    one time in four the grid is handed over as a non-contiguous (strided) view of a longer array — the drivers must read every axis'
+    grid through their own contiguous copy (seed C04-13: yy, zz aliased the caller's strided array in one driver)"""
+    g = _grid_for(dadi, rng, pts, it)
+    if it % 4 == 3:
+        big = np.empty(2 * len(g)); big[::2] = g; big[1::2] = -7.0
+        g = big[::2]
+    return g
+
+def _grid_for(dadi, rng, pts, it):
     if it % 3 == 0:
         return dadi.Numerics.default_grid(pts)
     if it % 3 == 1 and hasattr(dadi.Numerics, 'quadratic_grid'):
